@@ -19,6 +19,7 @@ ID = "C06"
 CFG = {"n": 2, "lazy": 1, "thin": True}
 
 _XSD = """<xs:schema xmlns:xs="http://www.w3.org/2001/XMLSchema">
+ <xs:element name="i" type="xs:string"/>  <!-- a GLOBAL element with the name of the local, differently typed item -->
  <xs:element name="r"><xs:complexType><xs:sequence>
    <xs:element name="i" minOccurs="0" maxOccurs="unbounded"><xs:complexType><xs:sequence>
        <xs:element name="c" type="xs:int" minOccurs="0" maxOccurs="2"/></xs:sequence>
@@ -115,7 +116,7 @@ def _doc(kw):
         if r is not None:
             attrs += ' ref="%s"' % r
         if ns:
-            attrs += ' xmlns:q="urn:q%d"' % j
+            attrs += ' xmlns:q="urn:q%d" xmlns:q2="urn:qq%d"' % (j, j)
         items.append('<i%s>%s</i>' % (attrs, ''.join('<c>%s</c>' % t for t in ch)))
     return '<r xmlns:p="urn:p">%s</r>' % ''.join(items)
 
